@@ -77,7 +77,6 @@ Inductive top :=
 | TUpdAdmins (l : list addr)
 | TFreeze.
 
-Definition nlen {A} (l : list A) : N := N.of_nat (length l).
 
 (* helpers.rs validate_stages / validate_update *)
 Fixpoint stages_ordered (l : list stage) : bool :=
